@@ -976,7 +976,7 @@ class SX:
             s.env = caller_env
             if is_gen and o.kind in ('fall', 'return'):
                 # a generator function: its value is the (concrete) sequence of what it yields on this path
-                res.append(Outcome(s, 'return', ys if isinstance(ys, Tv) else Tv([]), o.loc))
+                res.append(Outcome(s, 'return', Tv(list(ys.items) if isinstance(ys, Tv) else [], 'generator'), o.loc))
             else:
                 res.append(Outcome(s, o.kind, o.value, o.loc))
         return res
@@ -2929,6 +2929,8 @@ class SX:
             return None          # an object of exactly known class is an object
         if isinstance(v, (Ov, Seq)):
             return v.path
+        if isinstance(v, Unk) and v.text == '<f-string>':
+            return None          # a formatted string is a str, never None
         if isinstance(v, (Unk,)):
             return v.text
         if isinstance(v, Fv):
@@ -3385,6 +3387,19 @@ class SX:
             if s_no is not None:
                 res.append((s_no, args[1]) if len(args) == 2 else Outcome(s_no, 'raise', 'StopIteration', n.lineno))
             return res
+        if name == 'next' and len(args) in (1, 2) and isinstance(args[0], Tv) and args[0].kind == 'generator' and not kwargs \
+                and not self.eval_comprehensions:
+            # the first thing a (concretely evaluated) generator yields, or the default
+            items = args[0].items
+            if n.args and isinstance(n.args[0], ast.Name) and st.env.get(n.args[0].id) is args[0]:
+                s2 = st.copy()
+                s2.env[n.args[0].id] = Tv(list(items[1:]), 'generator')
+                st = s2
+            if items:
+                return [(st, items[0])]
+            if len(args) == 2:
+                return [(st, args[1])]
+            return [Outcome(st, 'raise', 'StopIteration', n.lineno)]
         if name == 'zip' and args and all(isinstance(a, Tv) and a.kind != 'generator' for a in args) and not kwargs and name not in m.functions:
             n_ = min(len(a.items) for a in args)
             return [(st, Tv([Tv([a.items[i] for a in args], 'tuple') for i in range(n_)], 'list'))]
